@@ -99,5 +99,6 @@ func init() {
 	}
 	arrayTexts["string:own:x-shout"] = []string{"ab", "ab,cd", "ab|cd", "ab cd", "ab\tcd", "ab,cd,ab", "ab,,cd", " ab , cd ", "AB,cd", "ab,a1", "ab,abcdefg", "ab,cd,ef,gh"}
 	arrayTexts["string:uuid"] = []string{uuid1, uuid1 + "," + uuid1, uuid1 + "|" + uuid1, uuid1 + ",zz", uuid1 + ",,"}
+	arrayTexts["string:byte"] = []string{"aGk=", "aGk=,YWJj", "aGk=|YWJj", "aGk= YWJj", "aGk=,!!!", "aGk=,,YWJj", "aGk=,_-8=", "aGk=,/+8="}
 	arrayTexts["string:own:hexcolor"] = []string{"#ffaa00", "#FFAA00,#000000", "#ffaa00|#000000", "#ffaa00 #000000", "#ffaa00\t#000000", "#ffaa00,red", "#ffaa00,#fa0", "#FFAA00,#000000,#00Ff7a,#ffaa00"}
 }
